@@ -234,6 +234,16 @@ class Stepper:
             ep.propagate_likelihood(self.one, par, chi, lik, ep.node_constraints, ep.node_posterior, ep.factors,
                                     lognorm, cfg["max_shape"], cfg["min_step"], bool(unphased))
         except AssertionError as e:
+            if fault == "skip" and "proper" in self.checks:
+                # The documented behaviour of a skipped update is "return NaN and keep the parameters"; if the very
+                # delivery whose projection was made invalid dies in a kernel assertion, a natural skip would leave
+                # no posterior at all.  (Never seen on the pinned tree: its kernel assertions under faults all come
+                # from propagate_prior after a root has been starved.)
+                self.viol.append(violation(
+                    "skip-path-raised", f"{kind}-delivery",
+                    f"the delivery of {kind} {i} (parent {p}, child {c}) with an invalid projection (skipped update) "
+                    f"raised AssertionError inside propagate_likelihood instead of keeping the node's parameters"))
+                raise Abort("violation") from e
             raise Abort("kernel-assert:propagate_likelihood") from e
         self.n_deliveries += 1
         fp, fc = self.fixed[p], self.fixed[c]
